@@ -185,3 +185,31 @@ Definition tx_wf (t : tx) : Prop :=
   0 <= tx_version t <= UINT32_MAX /\ 0 <= tx_locktime t <= UINT32_MAX /\
   Z.of_nat (length (tx_vin t)) <= MAX_SIZE /\ Z.of_nat (length (tx_vout t)) <= MAX_SIZE /\
   Forall txin_wf (tx_vin t) /\ Forall txout_wf (tx_vout t).
+
+(* ---- block header and block (src/primitives/block.h) ----
+   SERIALIZE_METHODS(CBlockHeader, obj) { READWRITE(obj.nVersion, obj.hashPrevBlock, obj.hashMerkleRoot, obj.nTime, obj.nBits, obj.nNonce); }
+     int32_t nVersion; uint256 hashPrevBlock, hashMerkleRoot (32 raw bytes each); uint32_t nTime, nBits, nNonce
+   SERIALIZE_METHODS(CBlock, obj) { READWRITE(AsBase<CBlockHeader>(obj), obj.vtx); }      vtx: std::vector<CTransactionRef> *)
+Record header : Type := mk_header {
+  h_version : Z; h_prev : list N; h_merkle : list N; h_time : Z; h_bits : Z; h_nonce : Z }.
+Record block : Type := mk_block { b_header : header; b_vtx : list tx }.
+
+Definition ser_header (h : header) : list N :=
+  write_le 4 (h_version h) ++ h_prev h ++ h_merkle h ++ write_le 4 (h_time h) ++ write_le 4 (h_bits h) ++ write_le 4 (h_nonce h).
+Definition unser_header (s : list N) : res header :=
+  bind (read_le 4 s) (fun v s1 =>
+  bind (read_bytes 32 s1) (fun p s2 =>
+  bind (read_bytes 32 s2) (fun m s3 =>
+  bind (read_le 4 s3) (fun t s4 =>
+  bind (read_le 4 s4) (fun b s5 =>
+  bind (read_le 4 s5) (fun n s6 => Ok (mk_header (wrap32 v) p m t b n) s6)))))).
+
+Definition ser_block (allow_witness : bool) (b : block) : list N :=
+  ser_header (b_header b) ++ ser_vector (ser_tx allow_witness) (b_vtx b).
+Definition unser_block (allow_witness : bool) (s : list N) : res block :=
+  bind (unser_header s) (fun h s1 =>
+  bind (unser_vector (unser_tx allow_witness) s1) (fun vtx s2 => Ok (mk_block h vtx) s2)).
+
+Definition header_wf (h : header) : Prop :=
+  INT32_MIN <= h_version h <= INT32_MAX /\ length (h_prev h) = 32%nat /\ length (h_merkle h) = 32%nat /\
+  0 <= h_time h <= UINT32_MAX /\ 0 <= h_bits h <= UINT32_MAX /\ 0 <= h_nonce h <= UINT32_MAX.
